@@ -88,6 +88,36 @@ META = {
         note="Client-side acceptance of each reconstructed envelope additionally relies on C01/C02/C05; value-level idempotence ('signing again changes nothing') follows from determinism of Ed25519 (A2).",
         ref="5 C11",
     ),
+    "C10": dict(
+        technique="term-sequence normalisation of the bytes fed to the hash object (concatenation flattening, BE32/hex codec normal forms) compared with the RFC 4880 v4 trailer written as a term list; event matching for verify; transcription store/del matching",
+        text="On every accepting path of verify_gpg_signature the hash is SHA-256 over exactly data || unhex(other_headers) || 04 ff || be32(len(unhex(other_headers))), and acceptance is from_public_bytes(unhex(key_value)).verify(unhex(signature['signature']), digest) behind the entry/key/data format gates, with InvalidSignature propagating; module chains are in the import closure; the GPG signing path returns the signer's dict minus keyid (optionally see_also := keyid), signs canonserialize(signed) and files the entry under the raw key value q of the same fingerprint.",
+        note="Partial: what real GnuPG / securesystemslib emit cannot be examined (neither is installed); transcription is checked assuming the signer returns {keyid, other_headers, signature}. Crypto soundness assumed (A2); lengths < 2**32 (A5).",
+        ref="5 C10",
+    ),
+    "C14": dict(
+        technique="obligation-table agreement: schema rows at primitive level vs facts on every accepting path (soundness) and classification of every rejecting path as the negation of a row (completeness); per-sub-validator grammar checks on inlined paths",
+        text="The delegating-metadata checker is compared in both directions with the schema written from the property: every accepting path establishes all 17 rows (envelope, entry grammar for every signature value, required fields, supported type list = ['root','key_mgr'], spec-version str, delegations grammar, UTC expiration, timestamp-or-version, root=>version, optional fields well formed) and every rejecting path negates a row; each sub-validator used for a row decides exactly that row's grammar.",
+        note="Leaf value grammars beyond the conjunct structure (int(x)==x, strptime's accepted digits) are assumed from CPython's documentation (A1); see C15.",
+        ref="5 C14",
+    ),
+    "C15": dict(
+        technique="path-wise comparison of each leaf validator (callees inlined to primitive facts) with its grammar written as a conjunction; predicate/raiser sibling agreement",
+        text="Every leaf validator accepts only on paths that establish all conjuncts of its grammar ({fromhex ok, isalnum, lower()==s} + exact length 64/128/40; raw and OpenPGP entry shapes; duplicate-free key list) and rejects only on paths carrying the negation of a conjunct; each is_X predicate is True exactly when checkformat_X returns and False exactly when it raises, with a handler covering the raiser's whole escape set.",
+        note="The lemma 'the three hex conjuncts <=> ([0-9a-f]{2})+' is a paper argument from CPython's documented bytes.fromhex / str.isalnum / str.lower (A1). A regex-based rewrite of a validator is not recognised (it would be reported).",
+        ref="5 C15",
+    ),
+    "C16": dict(
+        technique="return-term shape and provenance matching, per-field grammar facts on the returning path, must-call argument matching for the root wrapper, constant folding of default distances, term shape of the timestamp helper",
+        text="build_delegating_metadata returns exactly the six fields with the arguments (or defaults) verbatim and the spec-version constant, each placed value having been validated against the same field->grammar table the checker is verified against (C14); build_root_metadata passes 'root' and a display with root and key_mgr delegations built from its arguments and returns the result unmodified; default expiry = now + 365 days, default timestamp = now + 0, produced as (utcnow().replace(microsecond=0)+delta).isoformat()+'Z'.",
+        note="'Strictly after its timestamp' for two separate clock reads is a wall-clock relation and is not decided. Acceptance by the verifier after signing relies on C01-C03.",
+        ref="5 C16",
+    ),
+    "C19": dict(
+        technique="expanded-term equality for the key helper class methods under each concrete class binding (hex/unhex and Raw/Raw <-> from_*_bytes pairing), key-file write/read stream pairing, equivalence clause facts",
+        text="Decides the codec pairing that losslessness rests on: to_hex = hex(to_bytes), from_hex = from_bytes(unhex(x)) behind the 64-hex gate, to_bytes = Raw/Raw serialization paired with from_public_bytes / from_private_bytes, bytes-like gate; key files are written and read with matching suffixes, roles and binary mode; is_equivalent_to is the symmetric byte comparison between same-type keys; checkformat_key is the isinstance gate.",
+        note="Partial: equality with RFC 8032 vectors and value-level round trips are properties of the cryptography library (A2) - no static argument in reach.",
+        ref="5 C19",
+    ),
     "C13": dict(
         technique="exception-escape analysis (path-sensitive fact propagation + conditional summaries) over an ast-resolved program; call-graph acyclicity; custom rules",
         text="Static exception-escape analysis of all 24 public validators and 5 verifiers on every control-flow path: the escape set of each is within the documented families, named rejections carry the named classes, no while/recursion/mutated-iterable loops. Holds for every input because values are abstracted to guard facts; a new unguarded subscript, narrowed handler, assert-as-validation or foreign raise is reported with its call chain.",
